@@ -486,6 +486,8 @@ func (m *Model) prelude() string {
 (declare-const opaque0 Opaque)
 (declare-datatypes ((Addr 0)) (((Nil) (Base (base_id Int)) (Fld (fld_p Addr) (fld_i Int)) (Elem (elem_a Addr) (elem_i Int)) (Glob (glob_id Int)))))
 (declare-datatypes ((Slice 0)) (((mk_slice (sl_base Addr) (sl_off Int) (sl_len Int) (sl_cap Int)))))
+(declare-fun selem (Slice Int) Addr)
+(assert (forall ((s Slice) (k Int)) (! (= (selem s k) (Elem (sl_base s) (+ (sl_off s) k))) :pattern ((selem s k)))))
 (declare-datatypes ((Fn 0)) (((FNil) (FStatic (fs_id Int)) (FClos (fc_id Int) (fc_env Int)))))
 (define-fun fzero () F64 (_ +zero 11 53))
 (declare-fun slen (Str) Int)
